@@ -348,6 +348,65 @@ func memoryAfterAllCreates(p *fg.Parsed, fd *ast.FuncDecl) bool {
 	return createLoop >= 0 && syncLoop > createLoop
 }
 
+// the rollback loop keeps an address allocated in memory when its delete failed with anything but NotFound:
+//   if err := ci.deleteFloatingIP(slice[j]); err != nil { …; if !apierrors.IsNotFound(err) { ci.syncCacheAfterCreate(fips[j]) } }
+func rollbackKeeps(p *fg.Parsed, fd *ast.FuncDecl) bool {
+	res := false
+	ast.Inspect(fd.Body, func(x ast.Node) bool {
+		f, ok := x.(*ast.IfStmt)
+		if !ok || f.Init == nil || !strings.Contains(p.Src(f.Init), "ci.deleteFloatingIP(") || norm(p.Src(f.Cond)) != "err != nil" {
+			return true
+		}
+		arg := ""
+		ast.Inspect(f.Init, func(y ast.Node) bool {
+			if c, ok := y.(*ast.CallExpr); ok && p.Src(c.Fun) == "ci.deleteFloatingIP" && len(c.Args) == 1 {
+				if ix, ok := c.Args[0].(*ast.IndexExpr); ok {
+					arg = p.Src(ix.Index)
+				}
+			}
+			return true
+		})
+		for _, s := range f.Body.List {
+			g, ok := s.(*ast.IfStmt)
+			if !ok || g.Init != nil || g.Else != nil || norm(p.Src(g.Cond)) != "!apierrors.IsNotFound(err)" {
+				continue
+			}
+			for _, t := range g.Body.List {
+				e, ok := t.(*ast.ExprStmt)
+				if !ok {
+					continue
+				}
+				c, ok := e.X.(*ast.CallExpr)
+				if !ok || p.Src(c.Fun) != "ci.syncCacheAfterCreate" || len(c.Args) != 1 {
+					continue
+				}
+				if ix, ok := c.Args[0].(*ast.IndexExpr); ok && arg != "" && p.Src(ix.Index) == arg {
+					res = true
+				}
+			}
+		}
+		return true
+	})
+	return res
+}
+
+// handleFIPUnassign returns (without touching the caches) unless the cached record carries the reserved label:
+//   if _, ok := allocated.Labels[constant.ReserveFIPLabel]; !ok { return … }   before   ci.syncCacheAfterDel(allocated)
+func unassignChecksReserved(p *fg.Parsed, fd *ast.FuncDecl) bool {
+	guard, free := -1, -1
+	for i, s := range fd.Body.List {
+		if f, ok := s.(*ast.IfStmt); ok && f.Init != nil && f.Else == nil &&
+			norm(p.Src(f.Init)) == "_, ok := allocated.Labels[constant.ReserveFIPLabel]" && norm(p.Src(f.Cond)) == "!ok" &&
+			endsWithReturn(f.Body) && guard < 0 {
+			guard = i
+		}
+		if strings.Contains(p.Src(s), "ci.syncCacheAfterDel(allocated)") && free < 0 {
+			free = i
+		}
+	}
+	return guard >= 0 && free > guard
+}
+
 func intersectionSeed(p *fg.Parsed, fd *ast.FuncDecl) bool {
 	res := false
 	ast.Inspect(fd.Body, func(x ast.Node) bool {
@@ -477,6 +536,8 @@ func gen(repo string) (map[string]string, error) {
 	present, covers := rollbackFacts(ic, fds["AllocateInSubnetsAndIPRange"])
 	def("rollbackOnCreateFailure", present, "AllocateInSubnetsAndIPRange deletes already created objects when a create fails")
 	def("rollbackCoversAllCreated", covers, "the rollback loop visits every index below the failing one and returns the error afterwards")
+	def("rollbackKeepsUndeletedInMemory", rollbackKeeps(ic, fds["AllocateInSubnetsAndIPRange"]),
+		"an address whose rollback delete failed with anything but NotFound is put into the allocated table")
 	def("memoryUpdatedAfterAllCreates", memoryAfterAllCreates(ic, fds["AllocateInSubnetsAndIPRange"]),
 		"the cache update loop of AllocateInSubnetsAndIPRange follows the loop with all creates")
 	def("intersectionSeededOnFirstOnly", intersectionSeed(ic, fds["NodeSubnetsByIPRanges"]),
@@ -492,6 +553,8 @@ func gen(repo string) (map[string]string, error) {
 			noStore = false
 		}
 	}
+	def("unassignEventChecksReserved", unassignChecksReserved(sc, fds["handleFIPUnassign"]),
+		"handleFIPUnassign only releases a cached record which still carries the reserved label")
 	def("handlersMakeNoStoreCall", noStore, "handleFIPAssign / handleFIPUnassign only touch the caches")
 	ufd, err := sc.Fn("crdIpam", "updateFloatingIP")
 	if err != nil {
